@@ -18,6 +18,8 @@ MUTANTS = [
     ('c14-revert-invalid-content-length', 'C14', 'circuits/web/parsers/http.py',
      "            if not (clen.isascii() and clen.isdigit()):\n                raise InvalidHeader('invalid Content-Length %s' % clen)\n",
      "            if False:\n                pass\n"),
+    ('c14-revert-400-version', 'C14', H,
+     "                res.protocol = 'HTTP/{:d}.{:d}'.format(*(min(rp, sp) if rp[0] == sp[0] else sp))\n", ""),
     ('c14-revert-505-version', 'C14', H,
      "                res.protocol = 'HTTP/{:d}.{:d}'.format(*sp)\n                return self.fire(httperror(req, res, 505))",
      "                return self.fire(httperror(req, res, 505))"),
